@@ -1083,6 +1083,213 @@ static void wlScalerBare(Ctx& c, int nexec, int len)
    }
 }
 
+// ---------------------------------------------------------------- C05: basis inverse / multiply queries
+static void binvQueries(Ctx& c, int o)
+{
+   SoPlex& s = *c.objs[o]; int nr = s.numRows();
+   if(!s.hasBasis() || nr == 0) return;
+   auto ev0 = [&](const char* kind, int idx, bool unscale) { J ev; ev.s("a", "binv").i("o", o).s("kind", kind).i("idx", idx).b("unscale", unscale); return ev; };
+   auto bindNow = [&]() { std::vector<int> b(nr + 1); s.getBasisInd(b.data()); return jints(b.data(), nr); };
+   bool unscale = true;
+   for(int r = 0; r < nr; r++)
+   {
+      std::vector<double> coef(nr, 0.0); std::vector<int> inds(nr, -7); int ninds = -5;
+      bool sparse = c.rng.coin();
+      pending() = "getBasisInverseRowReal";
+      bool ret = s.getBasisInverseRowReal(r, coef.data(), sparse ? inds.data() : nullptr, sparse ? &ninds : nullptr, unscale);
+      J ev = ev0("row", r, unscale); ev.b("ret", ret).raw("res", jdblraw(coef.data(), nr)).raw("vec", "[]").b("sparse", sparse).i("ninds", ninds)
+         .raw("inds", sparse && ninds >= 0 ? jints(inds.data(), std::min(ninds, nr)) : "[]").raw("bind", bindNow());
+      emit(c, o, ev);
+   }
+   for(int k = 0; k < nr; k++)
+   {
+      std::vector<double> coef(nr, 0.0); std::vector<int> inds(nr, -7); int ninds = -5;
+      bool sparse = c.rng.coin();
+      pending() = "getBasisInverseColReal";
+      bool ret = s.getBasisInverseColReal(k, coef.data(), sparse ? inds.data() : nullptr, sparse ? &ninds : nullptr, unscale);
+      J ev = ev0("col", k, unscale); ev.b("ret", ret).raw("res", jdblraw(coef.data(), nr)).raw("vec", "[]").b("sparse", sparse).i("ninds", ninds)
+         .raw("inds", sparse && ninds >= 0 ? jints(inds.data(), std::min(ninds, nr)) : "[]").raw("bind", bindNow());
+      emit(c, o, ev);
+   }
+   for(int t = 0; t < 2; t++)
+   {
+      std::vector<double> v(nr), sol(nr, 0.0); for(double& x : v) x = c.rng.R(-4, 4);
+      std::vector<double> vin = v;
+      pending() = "getBasisInverseTimesVecReal";
+      bool ret = s.getBasisInverseTimesVecReal(v.data(), sol.data(), unscale);
+      J ev = ev0("times", t, unscale); ev.b("ret", ret).raw("res", jdblraw(sol.data(), nr)).raw("vec", jdblraw(vin.data(), nr)).b("sparse", false).i("ninds", -1).raw("inds", "[]").raw("bind", bindNow());
+      emit(c, o, ev);
+   }
+   for(int t = 0; t < 2; t++)
+   {
+      std::vector<double> v(nr); for(double& x : v) x = c.rng.R(-4, 4);
+      std::vector<double> vin = v; bool transp = t == 1;
+      pending() = transp ? "multBasisTranspose" : "multBasis";
+      bool ret = transp ? s.multBasisTranspose(v.data(), unscale) : s.multBasis(v.data(), unscale);
+      J ev = ev0(transp ? "multT" : "mult", t, unscale); ev.b("ret", ret).raw("res", jdblraw(v.data(), nr)).raw("vec", jdblraw(vin.data(), nr)).b("sparse", false).i("ninds", -1).raw("inds", "[]").raw("bind", bindNow());
+      emit(c, o, ev);
+   }
+}
+static void wlBinv(Ctx& c, int nexec, int len)
+{
+   for(int e = 0; e < nexec; e++)
+   {
+      T().line("{\"a\":\"Reset\"}");
+      c.objs.clear(); c.nextId = 0;
+      Gen gen{c.rng, 0};
+      int o = createObj(c);
+      setInt(c, o, "REPRESENTATION", SoPlex::REPRESENTATION, c.rng.R(0, 2));
+      setInt(c, o, "SCALER", SoPlex::SCALER, c.rng.coin(1, 3) ? 0 : c.rng.R(1, 6));
+      setBool(c, o, "PERSISTENTSCALING", SoPlex::PERSISTENTSCALING, c.rng.coin());
+      setInt(c, o, "SIMPLIFIER", SoPlex::SIMPLIFIER, c.rng.coin() ? SoPlex::SIMPLIFIER_OFF : SoPlex::SIMPLIFIER_INTERNAL);
+      LPData L = genWitnessed(c.rng, 5, c.rng.coin(3, 4) ? "OPT" : (c.rng.coin() ? "INF" : "UNB"), c.rng.coin() ? 8 : 0);
+      loadLP(c, o, L, false); witness(c, o, L);
+      for(int step = 0; step < len; step++)
+      {
+         int k = c.rng.R(0, 99); SoPlex& s = *c.objs[o]; bool solvable = s.numCols() > 0 && s.numRows() > 0;
+         if(k < 45) { if(!solvable) continue; SolveOpts so; so.complete = false;
+                      if(c.rng.coin(1, 4)) { setInt(c, o, "ITERLIMIT", SoPlex::ITERLIMIT, c.rng.R(0, 2)); so.limited = true; }
+                      optimize(c, o, so); if(so.limited) setInt(c, o, "ITERLIMIT", SoPlex::ITERLIMIT, -1);
+                      binvQueries(c, o); }
+         else if(k < 70) { setRandomBasis(c, o); binvQueries(c, o); }
+         else { int tries = 0; while(!randomModReal(c, o, gen, 6) && ++tries < 50) {} }
+      }
+   }
+}
+
+// ---------------------------------------------------------------- C03: exact (rational) solves
+struct LPDataQ
+{
+   int n = 0, m = 0, sense = -1; std::string kind;
+   std::vector<std::vector<Rational>> A; std::vector<Rational> lhs, rhs, lo, up, c, x, y, d, ray, farkas;
+};
+static Rational pickFactor(Rng& g)
+{
+   switch(g.R(0, 7))
+   {
+   case 0: return Rational(1) / Rational(3);
+   case 1: return Rational(7) / Rational(2);
+   case 2: { Rational r(1); for(int i = 0; i < 20; i++) r *= Rational(10); return Rational(1) / r; }   // 1e-20: triggers lifting
+   case 3: { Rational r(1); for(int i = 0; i < 12; i++) r *= Rational(10); return r; }
+   case 4: return Rational(3) / Rational(7);
+   default: return Rational(1);
+   }
+}
+// an exactly witnessed rational LP: integer construction, then rows and columns multiplied by rational factors
+static LPDataQ genWitnessedQ(Rng& g, int maxDim, const std::string& kind, bool wild)
+{
+   LPData L = genWitnessed(g, maxDim, kind, 0);
+   LPDataQ Q; Q.n = L.n; Q.m = L.m; Q.sense = L.sense; Q.kind = kind;
+   std::vector<Rational> rf(L.m), cf(L.n);
+   for(auto& f : rf) f = wild ? pickFactor(g) : (g.coin(1, 3) ? Rational(1) / Rational(3) : Rational(1));
+   for(auto& f : cf) f = wild ? pickFactor(g) : (g.coin(1, 3) ? Rational(2) / Rational(7) : Rational(1));
+   const Rational INF(infinity);
+   auto fin = [&](double v) { return v < infinity && v > -infinity; };
+   Q.A.assign(L.m, std::vector<Rational>(L.n));
+   for(int i = 0; i < L.m; i++) for(int j = 0; j < L.n; j++) Q.A[i][j] = Rational(L.A[i][j]) * rf[i] * cf[j];
+   for(int i = 0; i < L.m; i++) { Q.lhs.push_back(fin(L.lhs[i]) ? Rational(L.lhs[i]) * rf[i] : -INF); Q.rhs.push_back(fin(L.rhs[i]) ? Rational(L.rhs[i]) * rf[i] : INF); }
+   for(int j = 0; j < L.n; j++) { Q.lo.push_back(fin(L.lo[j]) ? Rational(L.lo[j]) / cf[j] : -INF); Q.up.push_back(fin(L.up[j]) ? Rational(L.up[j]) / cf[j] : INF);
+      Q.c.push_back(Rational(L.c[j]) * cf[j]); Q.x.push_back(Rational(L.x[j]) / cf[j]); Q.d.push_back(Rational(L.d[j]) * cf[j]);
+      if(!L.ray.empty()) Q.ray.push_back(Rational(L.ray[j]) / cf[j]); }
+   for(int i = 0; i < L.m; i++) { if(i < (int)L.y.size()) Q.y.push_back(Rational(L.y[i]) / rf[i]); if(!L.farkas.empty()) Q.farkas.push_back(Rational(L.farkas[i]) / rf[i]); }
+   return Q;
+}
+static std::string qvecs(const std::vector<Rational>& v) { return jarr((int)v.size(), [&](int i) { return jq(qrat(v[i])); }); }
+static void loadLPQ(Ctx& c, int o, const LPDataQ& Q)
+{
+   SoPlex& s = *c.objs[o];
+   setInt(c, o, "OBJSENSE", SoPlex::OBJSENSE, Q.sense);
+   LPColSetRational cs; std::ostringstream cj; cj << "[";
+   for(int j = 0; j < Q.n; j++) { DSVectorRational e; cs.add(Q.c[j], Q.lo[j], e, Q.up[j]);
+      J g; g.s("obj", qrat(Q.c[j])).s("lo", qrat(Q.lo[j])).raw("vec", "[]").s("up", qrat(Q.up[j])); cj << (j ? "," : "") << g.str(); }
+   cj << "]"; s.addColsRational(cs); modEventQ(c, o, "addCols", "rat", "{\"cols\":" + cj.str() + "}");
+   LPRowSetRational rs; std::ostringstream rj; rj << "[";
+   for(int i = 0; i < Q.m; i++) { DSVectorRational v; std::vector<std::pair<int, std::string>> e;
+      for(int j = 0; j < Q.n; j++) if(Q.A[i][j] != 0) { v.add(j, Q.A[i][j]); e.push_back({j, qrat(Q.A[i][j])}); }
+      rs.add(Q.lhs[i], v, Q.rhs[i]); J g; g.s("lhs", qrat(Q.lhs[i])).raw("vec", jsp(e)).s("rhs", qrat(Q.rhs[i])); rj << (i ? "," : "") << g.str(); }
+   rj << "]"; s.addRowsRational(rs); modEventQ(c, o, "addRows", "rat", "{\"rows\":" + rj.str() + "}");
+}
+static void witnessQ(Ctx& c, int o, const LPDataQ& Q)
+{
+   J ev; ev.s("a", "witnessQ").i("o", o).s("kind", Q.kind);
+   std::vector<Rational> act(Q.m);
+   for(int i = 0; i < Q.m; i++) { Rational a(0); for(int j = 0; j < Q.n; j++) a += Q.A[i][j] * Q.x[j]; act[i] = a; }
+   if(Q.kind == "OPT") ev.raw("sol", "{\"x\":" + qvecs(Q.x) + ",\"s\":" + qvecs(act) + ",\"y\":" + qvecs(Q.y) + ",\"d\":" + qvecs(Q.d) + "}");
+   else ev.raw("sol", "{\"x\":[],\"s\":[],\"y\":[],\"d\":[]}");
+   ev.raw("x", Q.kind == "UNB" ? qvecs(Q.x) : "[]").raw("ray", Q.kind == "UNB" ? qvecs(Q.ray) : "[]").raw("farkas", Q.kind == "INF" ? qvecs(Q.farkas) : "[]");
+   emit(c, o, ev);
+}
+static int optimizeQ(Ctx& c, int o, SolveOpts so)
+{
+   SoPlex& s = *c.objs[o];
+   pending() = "optimizeQ";
+   std::string pdig = paramsDigest(s);
+   SPxSolver::Status st = s.optimize();
+   int nr = s.numRowsRational(), nc = s.numColsRational();
+   J r; r.i("status", (int)st).b("hasSol", s.hasSol());
+   VectorRational x(nc), sl(nr), y(nr), d(nc); bool full = false;
+   if(st == SPxSolver::OPTIMAL && s.hasSol()) full = s.getPrimalRational(x) && s.getSlacksRational(sl) && s.getDualRational(y) && s.getRedCostRational(d);
+   r.b("full", full).s("objval", qrat(s.objValueRational()));
+   if(full) r.raw("sol", "{\"x\":" + qvec(x) + ",\"s\":" + qvec(sl) + ",\"y\":" + qvec(y) + ",\"d\":" + qvec(d) + "}");
+   else r.raw("sol", "{\"x\":[],\"s\":[],\"y\":[],\"d\":[]}");
+   bool hasRay = s.hasPrimalRay(), hasFk = s.hasDualFarkas(); VectorRational ray(nc), fk(nr);
+   if(hasRay) hasRay = s.getPrimalRayRational(ray);
+   if(hasFk) hasFk = s.getDualFarkasRational(fk);
+   r.b("hasRay", hasRay).raw("ray", hasRay ? qvec(ray) : "[]").b("hasFarkas", hasFk).raw("farkas", hasFk ? qvec(fk) : "[]");
+   r.b("hasBasis", s.hasBasis());
+   if(s.hasBasis()) { int rr = s.numRows(), cc = s.numCols(); std::vector<SPxSolver::VarStatus> br(rr + 1), bc(cc + 1); s.getBasis(br.data(), bc.data());
+      r.raw("brow", statuses(br.data(), rr)).raw("bcol", statuses(bc.data(), cc)); }
+   else r.raw("brow", "[]").raw("bcol", "[]");
+   r.raw("bind", "[]").i("iters", s.numIterations()).i("refinements", s.numRefinements()).b("interrupted", false);
+   c.modsSinceBasis[o] = 1;   // getBasisInd is not queried after exact solves
+   J ev; ev.s("a", "optimizeQ").i("o", o).b("exact", true).b("limited", so.limited).b("complete", so.complete).s("pdig", pdig).s("detKey", "").raw("r", r.str());
+   emit(c, o, ev);
+   return (int)st;
+}
+static void exactConfig(Ctx& c, int o, int family)
+{
+   setInt(c, o, "SOLVEMODE", SoPlex::SOLVEMODE, SoPlex::SOLVEMODE_RATIONAL);
+   setInt(c, o, "CHECKMODE", SoPlex::CHECKMODE, SoPlex::CHECKMODE_RATIONAL);
+   setReal(c, o, "FEASTOL", SoPlex::FEASTOL, 0.0); setReal(c, o, "OPTTOL", SoPlex::OPTTOL, 0.0);
+   setReal(c, o, "TIMELIMIT", SoPlex::TIMELIMIT, 20.0);      // a solve that does not decide a <= 12x12 LP in 20 s is reported as undecided
+   if(family == 1) { setInt(c, o, "RATFAC_MINSTALLS", SoPlex::RATFAC_MINSTALLS, 0); setBool(c, o, "ADAPT_TOLS_TO_MULTIPRECISION", SoPlex::ADAPT_TOLS_TO_MULTIPRECISION, true);
+                     setBool(c, o, "ITERATIVE_REFINEMENT", SoPlex::ITERATIVE_REFINEMENT, false); }   // exact-pure-boosting.set
+   if(family == 2)
+   {
+      // random settings of the exact-solver booleans that keep rational reconstruction or factorization enabled
+      bool ratrec = c.rng.coin(), ratfac = ratrec ? c.rng.coin() : true;
+      setBool(c, o, "RATREC", SoPlex::RATREC, ratrec); setBool(c, o, "RATFAC", SoPlex::RATFAC, ratfac);
+      setBool(c, o, "LIFTING", SoPlex::LIFTING, c.rng.coin()); setBool(c, o, "EQTRANS", SoPlex::EQTRANS, c.rng.coin());
+      setBool(c, o, "TESTDUALINF", SoPlex::TESTDUALINF, c.rng.coin()); setBool(c, o, "POWERSCALING", SoPlex::POWERSCALING, c.rng.coin());
+      setBool(c, o, "RATFACJUMP", SoPlex::RATFACJUMP, c.rng.coin()); setBool(c, o, "RECOVERY_MECHANISM", SoPlex::RECOVERY_MECHANISM, c.rng.coin());
+      setInt(c, o, "SIMPLIFIER", SoPlex::SIMPLIFIER, c.rng.coin() ? SoPlex::SIMPLIFIER_OFF : SoPlex::SIMPLIFIER_INTERNAL);
+      setInt(c, o, "SCALER", SoPlex::SCALER, c.rng.R(0, 4));
+   }
+}
+static void wlExact(Ctx& c, int nexec, int len, int maxDim)
+{
+   static const char* kinds[] = {"OPT", "OPT", "INF", "UNB"};
+   for(int e = 0; e < nexec; e++)
+   {
+      T().line("{\"a\":\"Reset\"}");
+      c.objs.clear(); c.nextId = 0;
+      LPDataQ Q = genWitnessedQ(c.rng, maxDim, kinds[c.rng.R(0, 3)], c.rng.coin());
+      for(int k = 0; k < len; k++)
+      {
+         int o = createObj(c);
+         setInt(c, o, "SYNCMODE", SoPlex::SYNCMODE, c.rng.coin(3, 4) ? SoPlex::SYNCMODE_AUTO : SoPlex::SYNCMODE_MANUAL);
+         int family = k == 0 ? 0 : c.rng.R(0, 2);
+         exactConfig(c, o, family);
+         if(c.rng.coin(1, 3)) setReal(c, o, "OBJ_OFFSET", SoPlex::OBJ_OFFSET, (double)c.rng.R(-3, 3));
+         loadLPQ(c, o, Q); witnessQ(c, o, Q);
+         if(c.objs[o]->intParam(SoPlex::SYNCMODE) == SoPlex::SYNCMODE_MANUAL) syncCall(c, o, true);
+         SolveOpts so; so.complete = true; optimizeQ(c, o, so);
+         if(c.rng.coin(1, 4)) optimizeQ(c, o, so);
+         destroyObj(c, o);
+      }
+   }
+}
+
 // C04: every point of a history at which hasBasis() is true; set/read back; transplant into a new object
 static void wlBasis(Ctx& c, int nexec, int len)
 {
@@ -1130,6 +1337,9 @@ int main(int argc, char** argv)
    else if(wl == "basis") wlBasis(c, nexec, len);
    else if(wl == "sync") wlSync(c, nexec, len);
    else if(wl == "copy") wlCopy(c, nexec, len);
+   else if(wl == "exact") wlExact(c, nexec, len, 5);
+   else if(wl == "exactbig") wlExact(c, nexec, len, 12);
+   else if(wl == "binv") wlBinv(c, nexec, len);
    else if(wl == "scale") wlScale(c, nexec, len);
    else if(wl == "scalerbare") wlScalerBare(c, nexec, len);
    else if(wl == "limits") wlLimits(c, nexec, len, 6);
